@@ -56,6 +56,7 @@ var Curated = []string{
 	"alias_a", "x=1 y=2", "x= y", "x=$(a) b", "1>a", "a>b>c", "<a", "<<E\nE\n", "<<E <<F\nE\nF\n", "a <<E <<E\n1\nE\n2\nE\n",
 	"a <<\"E\nF\"\n", "a <<$x\n$x\n", "a <<`b`\n`b`\n", "\x00", "a\x00b", "\xff\xfe", "é", "a\rb", "a\r\n",
 	"while a; do b; done <<E\nx\nE\n", "if a; then b <<E\nx\nE\nfi\n", "a | b <<E | c\nx\nE\n", "a <<E && b <<F\n1\nE\n2\nF\n",
+	"echo ${x}2>f", "\"$x\"2>f", "''2>f", "$(x)2>&1", "`x`0<&3", "$((1+1))2>>f", ": \\>2>f", "${x}2<<E\nb\nE\n", "a'b'2>f", "a2>f", "2>f", "\\22>f",
 	"${#}", "${##}", "${#?}", "${#-}", "${#x}", "${#:-a}", "${x%%}", "${x%%%}", "${x:}", "${x:a}", "${}", "${1a}", "$1a", "$10", "${10}",
 }
 
